@@ -194,7 +194,17 @@ def make_submitter(cfg, d):
     if cfg["environment"] == "native":
         kw["environment"] = native.Environment()
     if cfg["worker"] == "cf":
-        kw["n_procs"] = cfg["n_procs"]
+        if cfg.get("worker_as_object"):
+            # a configured worker object instead of a plug-in name + keyword arguments
+            from pydra.workers.cf import ConcurrentFuturesWorker
+
+            kw["worker"] = ConcurrentFuturesWorker(n_procs=cfg["n_procs"])
+        else:
+            kw["n_procs"] = cfg["n_procs"]
+    elif cfg.get("worker_as_object"):
+        from pydra.workers.debug import DebugWorker
+
+        kw["worker"] = DebugWorker()
     return Submitter(**kw)
 
 
